@@ -8,6 +8,8 @@ import (
 	"path/filepath"
 	"strings"
 	"sync"
+
+	"github.com/pkg/sftp"
 )
 
 // c15 kind cwrite: the single-packet operations of C15 include Write, which takes its position from the File's offset. G
@@ -129,6 +131,142 @@ func c15ConcurrentWrites(c *Ctx, dir string) {
 		cn := c.Case("cwrite", kvs("be", be), kvi("rep", rep), kvi("goroutines", G), kvi("writes", k), kvi("calls", G*k), kvs("layout", strings.Join(layout, ",")))
 		c.NT(cn)
 		c.Obs(cn, kvx("off", uint64(off/blk)))
+		c.Oracle(cn, why == "", why)
+	}
+}
+
+// c15 kind reopen: "one or several handles of the same file", with handles coming and going while others stay open. /y is opened,
+// /x twice; the handle of /y is closed and /y opened again (three more times in a row: open, close the one before). Then four
+// goroutines write distinct blocks through the two /x Files and the newest /y File and read them back through the same File.
+// Every completed write is in the file its File was opened on and nowhere else; every read sees the writer's own earlier write.
+func c15Reopen(c *Ctx, dir string) {
+	const blk = 32
+	reps := 8
+	if c.Thorough() {
+		reps = 80
+	}
+	for rep := 0; rep < reps; rep++ {
+		be := []string{"req", "reqalloc", "os", "osalloc"}[rep%4]
+		cn := c.Case("reopen", kvs("be", be), kvi("rep", rep))
+		c.NT(cn)
+		c.Stat("reopen_cases")
+		var pr *pair
+		var err error
+		nx, ny := "/x", "/y"
+		var mx, my *memFile
+		size := 8 * blk
+		switch be {
+		case "os", "osalloc":
+			nx, ny = filepath.Join(dir, fmt.Sprintf("rx%d", rep)), filepath.Join(dir, fmt.Sprintf("ry%d", rep))
+			os.WriteFile(nx, bytes.Repeat([]byte{'x'}, size), 0o644)
+			os.WriteFile(ny, bytes.Repeat([]byte{'y'}, size), 0o644)
+			pr, err = newPair(pairOpt{alloc: be == "osalloc"})
+		default:
+			fs := newMemFS()
+			mx, my = fs.get("/x", true), fs.get("/y", true)
+			mx.data, my.data = bytes.Repeat([]byte{'x'}, size), bytes.Repeat([]byte{'y'}, size)
+			pr, err = newPair(pairOpt{reqServer: true, handlers: fs.handlers(), alloc: be == "reqalloc"})
+		}
+		if err != nil {
+			c.Oracle(cn, false, "harness: "+err.Error())
+			continue
+		}
+		why := ""
+		open := func(name string) *sftp.File {
+			f, err := pr.Client.OpenFile(name, os.O_RDWR)
+			if err != nil && why == "" {
+				why = "harness: open " + name + ": " + err.Error()
+			}
+			return f
+		}
+		y := open(ny)
+		x1 := open(nx)
+		x2 := open(nx)
+		for k := 0; k < 1+rep%3 && why == ""; k++ { // the older handle goes, a new one comes, while x1 and x2 stay open
+			if y != nil {
+				y.Close()
+			}
+			y = open(ny)
+		}
+		if why == "" {
+			type job struct {
+				f    *sftp.File
+				slot int
+				tag  byte
+			}
+			jobs := []job{{x1, 0, 'A'}, {x2, 1, 'B'}, {y, 2, 'C'}, {x2, 3, 'D'}, {x1, 4, 'E'}, {y, 5, 'F'}}
+			var wg sync.WaitGroup
+			var mu sync.Mutex
+			for _, j := range jobs {
+				wg.Add(1)
+				go func(j job) {
+					defer wg.Done()
+					for round := 0; round < 4; round++ {
+						b := bytes.Repeat([]byte{j.tag + byte(round)*8}, blk)
+						if n, err := j.f.WriteAt(b, int64(j.slot*blk)); n != blk || err != nil {
+							mu.Lock()
+							if why == "" {
+								why = fmt.Sprintf("write-result: WriteAt of a %d-byte block returned (%d, %v)", blk, n, err)
+							}
+							mu.Unlock()
+							return
+						}
+						got := make([]byte, blk)
+						if n, err := j.f.ReadAt(got, int64(j.slot*blk)); n != blk || (err != nil && err != io.EOF) || !bytes.Equal(got, b) {
+							mu.Lock()
+							if why == "" {
+								why = fmt.Sprintf("read-own-write: after its WriteAt of %q.. completed, a ReadAt through the same File returned %q.. (n=%d err=%v): the handle serves another file or misses a completed write", b[:2], got[:2], n, err)
+							}
+							mu.Unlock()
+							return
+						}
+					}
+				}(j)
+			}
+			wg.Wait()
+		}
+		for _, f := range []*sftp.File{x1, x2, y} {
+			if f != nil {
+				f.Close()
+			}
+		}
+		pr.Close()
+		if why == "" {
+			var fx, fy []byte
+			if mx != nil {
+				mx.mu.Lock()
+				fx = append([]byte(nil), mx.data...)
+				mx.mu.Unlock()
+				my.mu.Lock()
+				fy = append([]byte(nil), my.data...)
+				my.mu.Unlock()
+			} else {
+				fx, _ = os.ReadFile(nx)
+				fy, _ = os.ReadFile(ny)
+			}
+			wantX, wantY := bytes.Repeat([]byte{'x'}, size), bytes.Repeat([]byte{'y'}, size)
+			for _, s := range []struct {
+				slot int
+				tag  byte
+				y    bool
+			}{{0, 'A', false}, {1, 'B', false}, {2, 'C', true}, {3, 'D', false}, {4, 'E', false}, {5, 'F', true}} {
+				dst := wantX
+				if s.y {
+					dst = wantY
+				}
+				copy(dst[s.slot*blk:], bytes.Repeat([]byte{s.tag + 24}, blk))
+			}
+			switch {
+			case !bytes.Equal(fx, wantX):
+				why = "wrong-file: after the writes the file opened twice does not hold exactly the blocks written through its two Files"
+			case !bytes.Equal(fy, wantY):
+				why = "wrong-file: after the writes the re-opened file does not hold exactly the blocks written through its File"
+			}
+		}
+		if be == "os" || be == "osalloc" {
+			os.Remove(nx)
+			os.Remove(ny)
+		}
 		c.Oracle(cn, why == "", why)
 	}
 }
